@@ -326,7 +326,7 @@ static void roundTrip(Ctx14 &c, const std::vector<int> &idx, quint16 type, const
 }
 
 // tamper oracle: `mut` differs from `orig` (which carries a valid MESSAGE-INTEGRITY under key) somewhere in
-// [0, end of MI attribute) other than the header length bytes => decode(mut, key) must fail.
+// [0, end of MI attribute) (the header length bytes only count when the buffer kept its size) => decode(mut, key) must fail.
 static void tamperCheck(Ctx14 &c, const QByteArray &orig, const QByteArray &mut, const QByteArray &key, int miEnd, const QJsonObject &cj, const QString &what)
 {
     auto &ctx = c.ctx;
@@ -336,7 +336,9 @@ static void tamperCheck(Ctx14 &c, const QByteArray &orig, const QByteArray &mut,
     bool protectedDiffers = false;
     const int lim = qMin(miEnd, qMax(mut.size(), orig.size()));
     for (int i = 0; i < lim; ++i) {
-        if (i == 2 || i == 3) {
+        // the header length is adjusted before hashing, so a shortened buffer with a repaired length (FINGERPRINT stripped) can be
+        // legitimate; an in-place corruption of the length bytes leaves a length that contradicts the datagram size
+        if ((i == 2 || i == 3) && mut.size() != orig.size()) {
             continue;
         }
         if (i >= mut.size() || i >= orig.size() || mut[i] != orig[i]) {
@@ -694,7 +696,7 @@ int main(int argc, char **argv)
                     QXmppStunMessage probe;
                     ++ctx.evaluations;
                     const bool accepted = probe.decode(mut, key20);
-                    const bool prot = f != 2 && f < miEnd;
+                    const bool prot = f < miEnd;   // (the buffer keeps its size, so a different header length contradicts it)
                     if (prot) {
                         ++ctx.nontrivial;
                     }
